@@ -55,3 +55,25 @@ def accepted(thorough=None, limit=None, salt='corpus'):
         r = rng(salt)
         res = r.sample(res, limit)
     return res, stats
+
+
+def accepted_families(fams, cap=None, salt='fam'):
+    """Real ASTs of the typed families of HplTypedGen: [(text, entry, obj)], stats."""
+    r = rng(salt)
+    res = []
+    stats = {'generated': 0, 'distinct': 0}
+    for fam in fams:
+        sents, st = grammar.enumerate_family(fam)
+        stats['generated'] += st['generated']
+        stats['distinct'] += st['distinct']
+        if cap and len(sents) > cap:
+            sents = r.sample(sents, cap)
+        for s in sents:
+            toks, _ = render.substitute(s, lits=grammar.STD_LITS)
+            text = render.layout(toks, 0)
+            for entry in ('expression', 'condition'):
+                out, obj = call_parser(entry, text)
+                if out == 'ast':
+                    res.append((text, entry, obj))
+                    break
+    return res, stats
